@@ -1,6 +1,6 @@
 (* C16 — property theorems (statements only; proofs live in Proofs*.v). *)
 From Coq Require Import ZArith QArith Qabs List Bool.
-Require Import QV.C16.Model QV.C16.Spec QV.C16.Proofs QV.C16.Proofs2 QV.C16.Proofs3 QV.C16.Proofs4 QV.C16.Proofs5 QV.C16.Proofs_term QV.C16.Proofs6.
+Require Import QV.C16.Model QV.C16.Spec QV.C16.Proofs QV.C16.Proofs2 QV.C16.Proofs3 QV.C16.Proofs4 QV.C16.Proofs5 QV.C16.Proofs_term QV.C16.Proofs6 QV.C16.Proofs_fuel.
 Import ListNotations.
 Open Scope Z_scope.
 
@@ -60,6 +60,28 @@ Theorem C16_fab_terminates : forall d done todo,
   (forall n r, fab n d done todo = r -> r <> Err EFuel -> forall k, fab (n + k) d done todo = r).
 Proof. intros d done todo. split; [apply fab_terminates|intros n r; apply fab_fuel_mono]. Qed.
 Print Assumptions C16_fab_terminates.
+
+(* (1a') ... with an EXPLICIT bound:  fab_bound d l = 1 + (2 max(d,0) + 4) * sum_{t in l} W t,
+   W (Loop r ch) = 1 + 3 max(1,|r|) (1 + sum_{c in ch} W c)  (a weighted size of the fully unrolled tree);
+   with at least that much fuel flatten_and_balance never returns the fuel error, for every level, prefix, work list *)
+Theorem C16_fab_fuel_bound : forall d done todo k, fab (fab_bound d todo + k) d done todo <> Err EFuel.
+Proof. exact fab_bound_ok. Qed.
+Print Assumptions C16_fab_fuel_bound.
+
+(* consequence for the compiler model: fuel >= fab_bound for the first loop and > prep_measure (of its result) for the
+   second loop excludes the fuel error; the fixed fuel of `compile` satisfies both for the example program *)
+Theorem C16_compile_fuel_explicit : forall ff pf c tbl prog,
+  (fab_bound 2 (l_ch (root_of prog)) <= ff)%nat ->
+  (forall ch1, fab ff 2 [] (l_ch (root_of prog)) = Ok ch1 -> (prep_measure [] ch1 < pf)%nat) ->
+  compile_with ff pf c tbl prog <> Err EFuel.
+Proof. exact compile_fuel_explicit. Qed.
+Print Assumptions C16_compile_fuel_explicit.
+
+Theorem C16_compile_fuel_nonvacuous :
+  (fab_bound 2 (l_ch (root_of ex_prog)) <= fab_fuel)%nat /\
+  forall ch1, fab fab_fuel 2 [] (l_ch (root_of ex_prog)) = Ok ch1 -> (prep_measure [] ch1 < prep_fuel)%nat.
+Proof. exact ex_fuel_ok. Qed.
+Print Assumptions C16_compile_fuel_nonvacuous.
 
 (* (1b) prepare_program_for_advanced_sequence_mode terminates, with the explicit measure
    prep_measure before after = #tables not yet passed + sum of the repetition counts of all tables:
